@@ -1,4 +1,4 @@
-CONSTANTS Names = {"a","b","c","d"} MaxRel = 3 MaxOps = 1000
+CONSTANTS Names = {"a","b","c","d"} MaxRel = 2 MaxOps = 1000
 INIT Init
 NEXT Next
 VIEW ViewNoOps
